@@ -22,11 +22,12 @@ PROP = dict(
          "every arrival and answers from a scripted list (status codes, 0 = read request then drop connection, -1 = refuse "
          "the dial); ALL scripts over {net, refuse, 200, 204, 404, 503} up to length 3 (quick) / 4 (thorough) x 2 / 4 seeded "
          "configurations (accepted codes, extra retry codes, budget 0-3 incl. library defaults, method, URL, headers, body "
-         "kind nil/*bytes.Reader/*bytes.Buffer/*strings.Reader/*os.File/plain io.Reader, sizes 0/1/64KiB, error responses "
-         "with/without body); one Attempt event per loop iteration logged by a harness RoundTripper around a real "
+         "kind nil/*bytes.Reader/*bytes.Buffer/*strings.Reader/*os.File/custom io.ReadSeeker/plain io.Reader, sizes "
+         "0/1/64KiB, seekable bodies handed over at offset 0 or at a non-zero offset -- the original body is then the bytes "
+         "from that offset to the end --, error responses with/without body); one Attempt event per loop iteration logged by a harness RoundTripper around a real "
          "http.Transport; non-trivial = at least one retry with a non-empty body or after a transport error",
     assumptions=["accepted codes and extra retry codes are disjoint (Reading in DESIGN C34)",
                  "a request whose body is a plain io.Reader (no GetBody, not seekable) may be given up on instead of retried",
-                 "bulk traces avoid the input classes of known finding F34 (generator precondition); 4 dedicated traces "
-                 "(reset cfg f34 = unsized / sized_newconn) sit inside them"],
+                 "the reset cfg carries the F34 input class of each trace (f34 = none / unsized / sized_newconn); since F34 was "
+                 "repaired the bulk includes those classes (retries with every body kind)"],
 )
